@@ -137,6 +137,26 @@ theorem master_canonical_text (p : MasterPlaylist) (hv : Valid p) (wf : MasterWF
   rw [parseMaster_of_written p.writeLines (master_written_lines_rt p wf)]
   exact write_parse_valid p hv
 
+/-- **faithful in any layout**: any text `#EXTM3U` + `x` whose lines classify into typed lines that agree with the lines
+the writer prints for `p` — up to comments, EXT-X-VERSION lines and swaps of independent lines — parses to exactly `p` -/
+theorem master_any_layout (p : MasterPlaylist) (hv : Valid p) (wf : MasterWF p) (x : Str) (ls : List Line)
+    (hx : lineItems x = ls.map Res.ok)
+    (hs : C12.SwapEq C12.masterIndep (ls.filter C12.nonNeutral) ((p.writeLines.map Line.norm).filter C12.nonNeutral)) :
+    parseMaster (pfxM3u ++ x) = .ok p := by
+  have hrt := master_written_lines_rt p wf
+  have hcanon : lineItems ('\n' :: renderLines p.writeLines) = (p.writeLines.map Line.norm).map Res.ok := by
+    unfold lineItems
+    have := rawLines_append_nl [] (renderLines p.writeLines) (by simp)
+    simp only [List.nil_append] at this
+    rw [this]
+    have hk : keepLine [] = [] := rfl
+    rw [hk, List.nil_append]
+    exact lineItems_renderLines p.writeLines hrt
+  rw [C12.master_presentation x ('\n' :: renderLines p.writeLines) ls (p.writeLines.map Line.norm) hx hcanon hs]
+  have e1 : pfxM3u ++ '\n' :: renderLines p.writeLines = pfxM3u ++ ['\n'] ++ renderLines p.writeLines := by simp
+  rw [e1, parseMaster_of_written p.writeLines hrt]
+  exact write_parse_valid p hv
+
 /-- non-vacuity of `master_roundtrip_wf` / `master_roundtrip_parsed`: a concrete master playlist with every kind of
 tag is in `MasterWF` and round-trips at string level -/
 theorem example_master : MasterWF exMaster ∧ parseMaster exMaster.show = .ok exMaster := ⟨exMaster_wf, exMaster_roundtrip⟩
